@@ -32,6 +32,65 @@ def gen_cases(chk, table, n, big=0):
     return cases
 
 
+def buf_len():
+    """_REDUCE_BUF_LEN of the checked tree (size of one compression buffer)"""
+    import re
+    try:
+        m = re.search(r'#define\s+_REDUCE_BUF_LEN\s+\(?\s*1u?\s*<<\s*(\d+)', open(os.path.join(vlib.REPO, 'mir-reduce.h')).read())
+        return 1 << int(m.group(1))
+    except (OSError, AttributeError):
+        return 1 << 18
+
+
+def exact_cases(chk, raw_exe, table, ks, deltas=(-1, 0, 1)):
+    """cases whose UNCOMPRESSED binary image (version, string table, items, EOF tag = the bytes MIR_write hands to the
+    compression layer = the bytes of the -DMIR_NO_BIN_COMPRESSION build) is exactly k * _REDUCE_BUF_LEN bytes, and the two
+    neighbours: only then the decompressor delivers its last full buffer BEFORE it meets the trailer, and the reader's
+    end-of-file handling runs with an empty buffer.  The length of one u8 table is tuned: write, measure, correct (length
+    fields are variable-length), until the measured length is the target.  -> (cases, {case: (k, delta, measured)})"""
+    B = buf_len()
+    cases, info = [], {}
+    for k in ks:
+        rng = chk.rng('c11/exact/%d' % k)
+        g = G.ModGen(rng, table, text_safe=False, temp_names=0.3)
+        g.pad_item = True
+        tmpl = g.case(nmodules=rng.choice([1, 1, 2]), n_items=rng.choice([1, 4, 10]), with_exec=True)
+        style = rng.randrange(4)
+        alpha = ([rng.randrange(128)] if style == 0 else rng.sample(range(128), rng.choice([2, 16, 64])) if style == 1
+                 else list(range(128)))
+        # style 3: a front part with values >= 128 (two bytes each in the stream); the tuned end is one byte per element
+        vals = [str(rng.randrange(128, 256)) if style == 3 and i < 3000 and i % 3 == 0 else str(rng.choice(alpha))
+                for i in range(k * B + 64)]
+
+        def mk(n):
+            return tmpl.replace('@PAD@', ' '.join(vals[:n]))
+
+        def measure(n):
+            r = K.run(raw_exe, [mk(n)])[0]
+            w = r.get('W1', '')
+            return len(w) // 2 if r.get('build') == 'ok' and w and not w.startswith('ERR') else None
+        n0 = None
+        n = k * B - 2000
+        for it in range(6):
+            L = measure(n)
+            if L is None:
+                break
+            if L == k * B:
+                n0 = n
+                break
+            n += k * B - L
+            if not 0 < n <= len(vals):
+                break
+        if n0 is None:
+            chk.notes.append('exact-size case for %d * BUF_LEN could not be tuned (API rejection or no fixed point)' % k)
+            continue
+        for dl in deltas:
+            c = mk(n0 + dl)
+            cases.append(c)
+            info[c] = (k, dl)
+    return cases, info
+
+
 def judge(case, raw, cmpr, model):
     """-> list of (signature-class, what) failures of the property or of the tie for one case"""
     bad = []
@@ -159,7 +218,18 @@ def run(chk):
     gen = gen_cases(chk, table, n, big=2 if quick else 12)
     cases += gen
     sigs += [None] * len(gen)
+    # images of exactly k compression buffers (and one byte less / more)
+    B = buf_len()
+    xc, xinfo = exact_cases(chk, exes[0], table, (1, 2, 3) if quick else (1, 2, 3, 4, 5))
+    cases += xc
+    sigs += [None] * len(xc)
     r1, r2, rm = run_cases(chk, exes, cases)
+    for c, a in zip(cases, r1):
+        if c in xinfo:
+            k, dl = xinfo[c]
+            L = len(a.get('W1', '')) // 2
+            chk.dist('exact_size_cases', 'uncompressed image of %d*BUF_LEN%+d bytes' % (k, dl) if L == k * B + dl
+                     else 'off target (%d*BUF_LEN%+d wanted, %d bytes)' % (k, dl, L))
     nfail = 0
     rejected = 0
     failures = []
